@@ -678,3 +678,37 @@ func RootOf(store string) string { return rootOf(store) }
 
 func (m *Model) EmpsWithDept(d string) []string { return m.empsWithDept(d) }
 func (m *Model) EmpsWithBoss(b string) []string { return m.empsWithBoss(b) }
+
+// DeleteWhere mirrors Store.DeleteWhere for a single-field equality filter: the matching ids are computed up
+// front (ascending id order, only entities visible through the store) and deleted one by one; the first failure
+// ends it. An id that an earlier cascade already removed fails with not-found, as in the implementation.
+func (m *Model) DeleteWhere(store string, cond map[string]any) Pred {
+	var ids []string
+	for id, e := range m.Ents[Emps] {
+		if store == Mgrs {
+			if _, has := e.Child[Mgrs]; !has {
+				continue
+			}
+		}
+		match := true
+		for k, v := range cond {
+			if e.V[k] != v {
+				match = false
+			}
+		}
+		if match {
+			ids = append(ids, id)
+		}
+	}
+	sort.Strings(ids)
+	var all []string
+	for _, id := range ids {
+		p := m.Delete(store, id)
+		if p.Skip || p.Exp != ExpOK {
+			return p
+		}
+		all = append(all, m.LastDeleted...)
+	}
+	m.LastDeleted = all
+	return ok()
+}
